@@ -34,6 +34,8 @@ def run(tier):
     gs = gram.corpus()
     nrand = 12 if tier == "quick" else 150
     gs += [gram.random_grammar(r, i, recovery=(i % 5 == 0)) for i in range(nrand)]
+    gs += [gram.nonlalr_family(r, i) for i in range(4 if tier == "quick" else 40)]
+    gs += [gram.nonlalr_matrix(r, i) for i in range(40 if tier == "quick" else 400)]
     c = lrcheck.prepare(gs)
     cobl, cdis, failing = lrcheck.certify(PROP, rep, c, parts=("shape", "complete", "exact", "start_eof_only"), name="c01cert")
     per = 10 if tier == "quick" else 30
@@ -45,7 +47,7 @@ def run(tier):
         for w in lrcheck.gen_words(g, e["start"], r, per):
             cases.append((e["tid"], lrengine.tok_items(g, e["t"], w, r), [], {}))
     dec, nbad = lrcheck.correspond(PROP, rep, c, cases, make_judge(c), "c01")
-    lrcheck.report_cert_failures(PROP, rep, c, failing, bool(rep.viol))
+    lrcheck.report_cert_failures(PROP, rep, c, failing, bool(rep.viol), make_judge(c), r)
     kinds = {}
     for d in dec:
         kinds[d["kind"]] = kinds.get(d["kind"], 0) + 1
